@@ -41,6 +41,9 @@ if __name__ == "__main__":
     only = [x[7:] for x in sys.argv if x.startswith("--only=")]
     if only:
         allobls = [o for o in allobls if any(x in o.site for x in only)]
+    paths = [x[7:] for x in sys.argv if x.startswith("--path=")]
+    if paths:
+        allobls = [o for o in allobls if any(o.trail.strip() == x or (x.endswith("*") and o.trail.strip().startswith(x[:-1])) for x in paths)]
     if "--dump" in sys.argv:
         import os
         os.makedirs("/tmp/dump", exist_ok=True)
